@@ -38,18 +38,21 @@ C14_ValidAccepted ==
 \* ---- C16: the checker on texts whose static validity and name diagnostics the specification computed
 NameKinds == {"UnboundVariable", "DuplicateVariable", "UnusedVar"}
 D == T.obs.diags                      \* <<kind, severity, sl, sc, el, ec, name>>
-ObsName(i) == <<D[i][1], D[i][3], D[i][4], D[i][5], D[i][6], D[i][7]>>
-ObsNameIdx == {i \in 1..Len(D) : D[i][1] \in NameKinds}
-CountObs(x) == Cardinality({i \in ObsNameIdx : ObsName(i) = x})
+\* a diagnostic about a variable is recognised by its severity, exact range and the variable's name; the Go type
+\* name of its kind is not pinned (a renamed kind is not a missing diagnostic)
+SevOf(k) == IF k = "UnusedVar" THEN 2 ELSE 1
+Matches(i, x) == D[i][2] = SevOf(x[1]) /\ <<D[i][3], D[i][4], D[i][5], D[i][6]>> = <<x[2], x[3], x[4], x[5]>> /\ D[i][7] = x[6]
 ExpSet == {T.expnames[i] : i \in 1..Len(T.expnames)}
+CountObs(x) == Cardinality({i \in 1..Len(D) : Matches(i, x)})
+ObsNameIdx == {i \in 1..Len(D) : D[i][1] \in NameKinds}
 C16_Checker ==
   /\ Check("C16", "the checker panicked", T.obs.panic = "")
   /\ (T.obs.panic # "" \/ ~T.valid \/ (\A i \in 1..Len(D) : D[i][2] # 1)
         \/ Report("C16", "a statically valid script received an error-severity diagnostic", CHOOSE j \in 1..Len(D) : D[j][2] = 1))
   /\ (T.obs.panic # "" \/ (\A x \in ExpSet : CountObs(x) = 1)
         \/ Report("C16", "an undeclared use / repeated declaration / unused variable is not reported exactly once at its token", 0))
-  /\ (T.obs.panic # "" \/ (\A i \in ObsNameIdx : ObsName(i) \in ExpSet)
-        \/ Report("C16", "a variable was reported although it is declared once and used", CHOOSE j \in ObsNameIdx : ObsName(j) \notin ExpSet))
+  /\ (T.obs.panic # "" \/ (\A i \in ObsNameIdx : \E x \in ExpSet : Matches(i, x))
+        \/ Report("C16", "a variable was reported although it is declared once and used", CHOOSE j \in ObsNameIdx : ~\E x \in ExpSet : Matches(j, x)))
 \* ---- C17: the same text checked and executed (variable values of the declared types)
 StaticClasses == {"TypeError", "UnboundVariableErr", "UnboundFunctionErr", "BadArityErr", "InvalidTypeErr"}
 ShapeClasses == {"InvalidUnboundedInSendAll", "InvalidAllotmentInSendAll"}
@@ -67,7 +70,8 @@ C19_Histories == T.e = "lsp" =>
            \/ Report("C19", "a reply or published diagnostic set differs from a fresh analysis of the latest text of that document (stale version or another document)", i))
 
 \* ---- C19 (navigation): hover / definition at every position against the token table of the printing machine
-\* expnodes[i] = <<kind, sl, sc, el, ec, name>>; probes[j] = <<ln, ch, hkind, hname, htype, hsl, hsc, hel, hec, dsl, dsc, del, dec>>
+\* expnodes[i] = <<kind, sl, sc, el, ec, name>>; probes[j] = <<ln, ch, hover present (0/1), words of the hover text, "", hsl, hsc, hel, hec, dsl, dsc, del, dec>>
+\* (the wording of a hover is not pinned: it must mention the variable as $name and its declared type, resp. the function name)
 NN == T.expnodes
 InTok(nd, ln, ch) == nd[2] = ln /\ nd[4] = ln /\ nd[3] <= ch /\ ch < nd[5]
 AtTokEnd(nd, ln, ch) == nd[4] = ln /\ ch = nd[5]
@@ -78,7 +82,8 @@ LeqPos(a, b, c, d) == a < c \/ (a = c /\ b <= d)
 \* the call is the origin of a declaration iff its range lies within a VarDeclaration's
 OriginCtx(i) == \E j \in 1..(i - 1) : NN[j][1] = "VarDeclaration" /\ LeqPos(NN[j][2], NN[j][3], NN[i][2], NN[i][3]) /\ LeqPos(NN[i][4], NN[i][5], NN[j][4], NN[j][5])
 FnKnown(i) == IF OriginCtx(i) THEN NN[i][6] \in {"meta", "balance", "overdraft"} ELSE NN[i][6] \in {"set_tx_meta", "set_account_meta"}
-NoHover(pr) == pr[3] = "" /\ pr[6] = -1
+NoHover(pr) == pr[3] = 0 /\ pr[6] = -1
+Mentions(pr, w) == \E k \in 1..Len(pr[4]) : pr[4][k] = w
 NoDef(pr) == pr[10] = -1
 ProbeOk(pr) ==
   LET ln == pr[1]  ch == pr[2]
@@ -89,10 +94,10 @@ ProbeOk(pr) ==
        IF NN[i][1] = "Variable" THEN
           LET d == DeclOf(i) IN
           IF d = 0 THEN NoHover(pr) /\ NoDef(pr)
-          ELSE /\ pr[3] = "var" /\ pr[4] = NN[i][6] /\ pr[5] = NN[d - 1][6]
+          ELSE /\ pr[3] = 1 /\ Mentions(pr, "$" \o NN[i][6]) /\ Mentions(pr, NN[d - 1][6])
                /\ <<pr[6], pr[7], pr[8], pr[9]>> = <<NN[i][2], NN[i][3], NN[i][4], NN[i][5]>>
                /\ <<pr[10], pr[11], pr[12], pr[13]>> = <<NN[d][2], NN[d][3], NN[d][4], NN[d][5]>>
-       ELSE IF FnKnown(i) THEN pr[3] = "fn" /\ pr[4] = NN[i][6] /\ <<pr[6], pr[7], pr[8], pr[9]>> = <<NN[i][2], NN[i][3], NN[i][4], NN[i][5]>> /\ NoDef(pr)
+       ELSE IF FnKnown(i) THEN pr[3] = 1 /\ Mentions(pr, NN[i][6]) /\ <<pr[6], pr[7], pr[8], pr[9]>> = <<NN[i][2], NN[i][3], NN[i][4], NN[i][5]>> /\ NoDef(pr)
             ELSE NoHover(pr) /\ NoDef(pr)
 C19_Navigation == T.e = "nav" =>
   /\ Check("C19", "the language server panicked", T.panic = "")
